@@ -21,6 +21,12 @@ def own(key):
         return PROP
     if key.startswith("search:"):
         return "C12"
+    # a memory error in the code that builds, sorts or releases an address result is the same breakage seen one step
+    # earlier (a duplicated list entry is freed twice before the result can be compared with the answer)
+    if key.startswith(("asan:", "ubsan:")) and any(f in key for f in (
+            "ares_free_hostent", "sort_addresses", "sort6_addresses", "ares_addrinfo2hostent", "ares_addrinfo2addrttl",
+            "ares_sortaddrinfo", "ares_gethostbyname_callback")):
+        return PROP
     return C01.own(key)
 
 
